@@ -113,6 +113,8 @@ func val(r *sx.Rng) string {
 	return sx.Pick(r, []string{"0", "1000", "root", "x", "/bin/ls", "pts/0", "4294967295", "a b", "k1", "10.0.0.7", "h.example", "unset", "?x"})
 }
 
+var normTypes []auparse.AuditMessageType
+
 var otherTypes = []auparse.AuditMessageType{auparse.AUDIT_CWD, auparse.AUDIT_PROCTITLE, auparse.AUDIT_AVC, auparse.AUDIT_MMAP, auparse.AUDIT_SECCOMP, auparse.AUDIT_NETFILTER_CFG, auparse.AUDIT_CONFIG_CHANGE,
 	auparse.AUDIT_USER_LOGIN, auparse.AUDIT_USER_AUTH, auparse.AUDIT_CRED_ACQ, auparse.AUDIT_LOGIN, auparse.AUDIT_CRYPTO_KEY_USER, auparse.AUDIT_USER_CMD, auparse.AUDIT_BPRM_FCAPS, auparse.AUDIT_OBJ_PID}
 
@@ -210,6 +212,14 @@ func genGroup(r *sx.Rng) group {
 		var types []auparse.AuditMessageType
 		if r.Chance(1, 6) {
 			types = append(types, sx.Pick(r, otherTypes)) // a special record in front
+		} else if len(normTypes) > 0 && r.Chance(1, 5) {
+			// ... in particular one with a normalisation of its own (merged with the syscall's); a few types recur so that
+			// several events of one record type with different syscalls follow each other
+			if r.Chance(1, 2) {
+				types = append(types, normTypes[r.Intn(len(normTypes))])
+			} else {
+				types = append(types, normTypes[(r.Intn(4)*7)%len(normTypes)])
+			}
 		}
 		if !r.Chance(1, 10) {
 			types = append(types, auparse.AUDIT_SYSCALL)
@@ -314,9 +324,7 @@ func modeEvents(seed uint64, n int, out *sx.Out) {
 		flat [][2]string
 	}
 	var pool []kept
-	for i := 0; i < n; i++ {
-		r := sx.Fork(seed, uint64(i))
-		g := genGroup(r)
+	do := func(i int, r *sx.Rng, g group) {
 		in := append([]*auparse.AuditMessage(nil), g.msgs...)
 		before := snapshot(in)
 		recs := recordsCoq(in)
@@ -360,6 +368,31 @@ func modeEvents(seed uint64, n int, out *sx.Out) {
 		}
 		coq := fmt.Sprintf("ECase %s %v %s %s %v %v %v", recs, p1 || p2, res, w1, before == after, repeatOK, isolated)
 		out.Case(coq, map[string]interface{}{"case": i, "records": strings.Join(g.desc, ","), "err": fmt.Sprint(err1), "warnings": len(w1) > 2}, fmt.Sprintf("group/records=%d", len(in)), e1 != nil)
+	}
+	for i := 0; i < n; i++ {
+		r := sx.Fork(seed, uint64(i))
+		do(i, r, genGroup(r))
+	}
+	// every record type with a normalisation of its own in front of SYSCALL records of three different syscalls, back to back:
+	// the events share the normalisation tables and must not share anything else
+	for ti, t := range normTypes {
+		for si, sc := range []int{90, 87, 2} {
+			r := sx.Fork(seed^0x77, uint64(ti*3+si))
+			var g group
+			seq, sec := uint32(5000+ti), int64(1500000000+ti)
+			raws := []struct {
+				t   auparse.AuditMessageType
+				raw string
+			}{{t, genRecord(r, t, seq, sec, []string{"k1", "k2"})},
+				{auparse.AUDIT_SYSCALL, fmt.Sprintf("audit(%d.123:%d): arch=c000003e syscall=%d success=no exit=-13 a0=1 a1=2 items=0 ppid=1 pid=2 auid=1000 uid=0 gid=0 euid=0 suid=0 fsuid=0 egid=0 sgid=0 fsgid=0 tty=pts0 ses=3 comm=\"cmd\" exe=\"/usr/bin/cmd\" subj=u:r:t:s0:c1 key=(null)", sec, seq, sc)}}
+			for _, x := range raws {
+				if m, err := auparse.Parse(x.t, x.raw); err == nil {
+					g.msgs = append(g.msgs, m)
+					g.desc = append(g.desc, x.t.String())
+				}
+			}
+			do(n+ti*3+si, r, g)
+		}
 	}
 }
 
@@ -408,6 +441,18 @@ func main() {
 	flag.Parse()
 	out := sx.NewOut(os.Stdout)
 	defer out.Flush()
+	// every record type that has a normalisation of its own can stand in front of a SYSCALL record
+	_, rtn := aucoalesce.VerifNormalizations()
+	names := make([]string, 0, len(rtn))
+	for k := range rtn {
+		names = append(names, k)
+	}
+	sort.Strings(names)
+	for _, k := range names {
+		if t, err := auparse.GetAuditMessageType(k); err == nil && t != auparse.AUDIT_SYSCALL && t != auparse.AUDIT_PATH && t != auparse.AUDIT_EXECVE && t != auparse.AUDIT_SOCKADDR && t != auparse.AUDIT_EOE {
+			normTypes = append(normTypes, t)
+		}
+	}
 	switch *mode {
 	case "events":
 		modeEvents(*seed, *n, out)
